@@ -429,4 +429,18 @@ def attachSwapped (s : Scene) (l p : Nat) : Scene :=
     | none => subs1
   { subs := subs2, cur := fun k => if k = l then some p else s.cur k }
 
+/-- `Notifier.notify`: every reference whose observer is still alive is called, in registration order; dead references
+are collected during the loop and purged afterwards.  Returns (observers called, references kept). -/
+def notifyRun (alive : Nat → Bool) (subs : List Nat) : List Nat × List Nat := (subs.filter alive, subs.filter alive)
+
+/-- the seeded variant (purge inside the loop): removing the current entry of the list being iterated makes the
+iteration skip the entry that follows it -/
+def notifyPurgeInLoop (alive : Nat → Bool) : List Nat → List Nat
+  | [] => []
+  | l :: rest =>
+    if alive l then l :: notifyPurgeInLoop alive rest
+    else match rest with
+      | [] => []
+      | _ :: rest' => notifyPurgeInLoop alive rest'
+
 end Cherab.Laser
